@@ -229,3 +229,250 @@ def variants(world, tier="quick", only=None):
     if only:
         out = [v for v in out if any(o in v.name for o in only)]
     return out
+
+
+# ---------------------------------------------------------------------------
+# conjunctive_partition / disjunctive_partition: the work-list loop under a loop contract
+# ---------------------------------------------------------------------------
+class PartitionVariant(Variant):
+    """Loop invariant at an arbitrary iteration (work list = an untouched prefix + its top entry; `seen` an arbitrary set):
+         C20  every node expanded or yielded so far is in `seen`  -- so a node is expanded / yielded at most once: the
+              loop acts on a node only when it is not in `seen`
+         C10  (conjunctive)  formula  =>  every yielded node and every work-list entry holds
+              (disjunctive)  every yielded node / work-list entry  =>  formula
+       under one arbitrary interpretation (the `val` vocabulary).  The converse direction (nothing is lost) needs an
+       induction over the height of the nodes in `seen` and stays with the bounded stand-in."""
+    prop_ids = ("C10", "C20")
+    bounded = "arity"
+
+    def __init__(self, world, which):
+        self.world, self.which = world, which
+        self.qualname = "pysmt.rewritings.%s_partition" % which
+        self.name = "partition:%s" % which
+        self.Kop = S.AND if which == "conjunctive" else S.OR
+        self.max_arity = 3
+
+    def holds(self, n):
+        return S.val(n) == S.VBool(True)
+
+    def setup(self, ex):
+        from pyvc.loops import LoopInvariant
+        from pyvc.symex import SetVal, PrefList, Builtin
+        from pyvc import builtins_impl as BI
+        W = self.world
+        core.make_env(ex, W)
+        f = z3.Const("formula", Node)
+        W.touch(ex, f)
+        ex.assume(S.type_of(f) == S.BoolT)
+        self.formula = f
+        g = ex.ghost
+        NodeSet = z3.SetSort(Node)
+        g["acted"] = z3.EmptySet(Node)           # nodes expanded or yielded so far
+        g["yielded_ok"] = z3.BoolVal(True)       # conjunctive: conj of the yielded values; disjunctive: disj
+        g["acted_twice"] = []
+        v = self
+        conj = self.which == "conjunctive"
+
+        def fold(vals):
+            vals = list(vals)
+            if conj:
+                return z3.And(vals) if vals else z3.BoolVal(True)
+            return z3.Or(vals) if vals else z3.BoolVal(False)
+        g["yielded_ok"] = fold([])
+
+        def act(exx, n):
+            gg = exx.ghost
+            exx.oblige("C20:acts-on-a-node-at-most-once", z3.Not(z3.IsMember(n, gg["acted"])))
+            gg["acted"] = z3.SetAdd(gg["acted"], n)
+
+        def on_yield(val):
+            exx = ex
+            if not is_node(val):
+                exx.oblige("yields-formulas", z3.BoolVal(False))
+                return
+            act(exx, val)
+            exx.oblige("C10:yields-no-%s" % ("conjunction" if conj else "disjunction"), S.op(val) != v.Kop)
+            exx.ghost["yielded_ok"] = fold([exx.ghost["yielded_ok"], v.holds(val)])
+        self.on_yield = on_yield
+
+        def pending(exx, fr):
+            tp = fr.locs["to_process"]
+            if isinstance(tp, PrefList):
+                return fold([exx.ghost["rest_ok"]] + [v.holds(x) for x in tp.items])
+            return fold([v.holds(x) for x in tp])
+
+        def seen_z3(exx, fr):
+            return BI.set_to_z3(W, exx, fr.locs["seen"], Node)
+
+        def havoc(exx, fr):
+            gg = exx.ghost
+            gg["acted"] = exx.fresh("acted_so_far", NodeSet)
+            gg["yielded_ok"] = exx.fresh("yielded_so_far", B)
+            gg["rest_ok"] = exx.fresh("rest_of_the_work_list", B)
+            fr.locs["seen"] = SetVal(zextra=[exx.fresh("seen_so_far", NodeSet)])
+            if exx.decide(exx.fresh("work_left", B)):
+                top = exx.fresh("top_entry", Node)
+                W.touch(exx, top)
+                n = exx.fresh("entries_below", S.I)
+                exx.assume(n >= 0)
+                fr.locs["to_process"] = PrefList(n, [top])
+            else:
+                fr.locs["to_process"] = []
+            fr.locs.pop("cur", None)
+
+        def inv(exx, fr):
+            gg = exx.ghost
+            both = fold([gg["yielded_ok"], pending(exx, fr)])
+            sem = z3.Implies(v.holds(f), both) if conj else z3.Implies(both, v.holds(f))
+            return [("C20:acted-nodes-are-remembered", z3.IsSubset(gg["acted"], seen_z3(exx, fr))),
+                    ("C10:%s" % ("formula-implies-yielded-and-pending" if conj else "yielded-and-pending-imply-formula"), sem)]
+        W.loop_contracts[(self.qualname, 0)] = LoopInvariant(havoc, inv, name="worklist")
+
+        # expansion of a node = asking for its children
+        real_args = W.repo.method("pysmt.fnode.FNode", "args")
+
+        class Args(Contract):
+            qualname = "pysmt.fnode.FNode.args"
+
+            def apply(self, exx, a, kw):
+                act(exx, a[0])
+                return exx.run_function(W.wrap_func(real_args, real_args.module, bound=a[0], owner="pysmt.fnode.FNode"), [], {})
+        c = Args()
+        c.world = W
+        W.contracts[c.qualname] = c
+        fi = W.repo.func(self.qualname)
+        real = W.wrap_func(fi, fi.module)
+
+        def run(exx, a, kw):
+            gen = exx.call(real, [f], {})
+            exx.drive(gen, on_yield)
+            return None
+        return Builtin("drive:" + self.qualname, run), [], {}
+
+    def check(self, ex, outcome):
+        kind, r = outcome
+        if kind == "raise":
+            return [("no-exception", z3.BoolVal(False))]
+        g = ex.ghost
+        conj = self.which == "conjunctive"
+        goals = [("loop-contract-used", z3.BoolVal(g.get("loop_contracts_used", 0) >= 1))]
+        # after the loop: the work list is empty
+        sem = z3.Implies(self.holds(self.formula), g["yielded_ok"]) if conj else z3.Implies(g["yielded_ok"], self.holds(self.formula))
+        goals.append(("C10:%s" % ("every-conjunct-follows-from-the-formula" if conj else "every-disjunct-implies-the-formula"), sem))
+        return goals
+
+
+from pyvc.world import Contract
+_base_variants10 = variants
+
+
+def variants(world, tier="quick", only=None):
+    out = _base_variants10(world, tier, None)
+    out += [PartitionVariant(world, "conjunctive"), PartitionVariant(world, "disjunctive")]
+    if only:
+        out = [v for v in out if any(o in v.name for o in only)]
+    return out
+
+
+# ---------------------------------------------------------------------------
+# TimesDistributor: the three callbacks (products of sums expanded, sums kept flat, minus as plus of -1 * ...)
+# ---------------------------------------------------------------------------
+class TimesDistVariant(Variant):
+    """callback of TimesDistributor on a node f with operator K, given for each child a rewritten argument of the same type
+    and value whose shape is `shape[i]`: 0 = not a sum, m >= 2 = a sum of m terms.  The result has the type and, under
+    every interpretation, the value of f; a product returned by walk_times has no sum among its factors."""
+    prop_ids = ("C10",)
+    bounded = "arity"
+
+    def __init__(self, world, Kop, shape, real):
+        self.world, self.Kop, self.shape, self.real = world, Kop, tuple(shape), real
+        self.qualname = "pysmt.rewritings.TimesDistributor." + {S.TIMES: "walk_times", S.PLUS: "walk_plus", S.MINUS: "walk_minus"}[Kop]
+        self.name = "distribute:%s[%s/%s]" % (S.OPNAMES[Kop], ",".join(str(s) for s in shape), "Real" if real else "Int")
+        self.max_arity = 9
+
+    def setup(self, ex):
+        W = self.world
+        env = core.make_env(ex, W)
+        mgr = env.fields["_formula_manager"]
+        T = S.RealT if self.real else S.IntT
+        f = z3.Const("formula", Node)
+        self.formula = f
+        k = len(self.shape)
+        ex.assume(S.op(f) == self.Kop)
+        W.learn(ex, f, op=self.Kop, k=k)
+        ex.assume(S.type_of(f) == T)
+        self.args = []
+        for i, m in enumerate(self.shape):
+            c = S.arg(f, S.K(i))
+            W.touch(ex, c)
+            a = z3.Const("rewritten%d" % i, Node)
+            W.touch(ex, a)
+            ex.assume(S.type_of(a) == T)
+            ex.assume(S.type_of(c) == T)
+            ex.assume(S.val(a) == S.val(c))
+            if m:
+                ex.assume(S.op(a) == S.PLUS)
+                W.learn(ex, a, op=S.PLUS, k=m)
+                for j in range(m):
+                    ex.assume(S.op(S.arg(a, S.K(j))) != S.PLUS)      # the rewritten sums are flat (what walk_plus / walk_minus establish)
+            else:
+                ex.assume(S.op(a) != S.PLUS)
+            self.args.append(a)
+        one = lambda nm, Kc, val: W.new_node(ex, Kc, [], [val], check=False)
+        self.w = Obj("pysmt.rewritings.TimesDistributor",
+                     {"env": env, "mgr": mgr, "memoization": DictVal(), "stack": [],
+                      "Times": W.getattr(ex, mgr, "Times"), "Plus": W.getattr(ex, mgr, "Plus"),
+                      "rminus_one": one("rm1", S.REAL_CONSTANT, z3.RealVal(-1)), "iminus_one": one("im1", S.INT_CONSTANT, z3.IntVal(-1)),
+                      "get_type": W.getattr(ex, env.fields["_stc"], "get_type")}, tag="distributor")
+        fi = W.repo.func(self.qualname)
+        return W.wrap_func(fi, fi.module, bound=self.w), [f], {"args": list(self.args)}
+
+    def check(self, ex, outcome):
+        kind, r = outcome
+        if kind == "raise":
+            return [("no-exception", z3.BoolVal(False))]
+        if not is_node(r):
+            return [("returns-node", z3.BoolVal(False))]
+        W = self.world
+        W.touch(ex, r)
+        if self.Kop == S.TIMES and any(self.shape):
+            # lemma (pure arithmetic, proved as an obligation of its own before it is used): the product of the sums is
+            # the sum of the products over every choice of one term per factor
+            import itertools
+            acc = (lambda n: S.Val.vr(S.val(n))) if self.real else (lambda n: S.Val.vi(S.val(n)))
+            terms = [[acc(S.arg(a, S.K(j))) for j in range(m)] if m else [acc(a)] for a, m in zip(self.args, self.shape)]
+            prod = lambda xs: z3.Product(xs) if len(xs) > 1 else xs[0]
+            lhs = prod([z3.Sum(t) if len(t) > 1 else t[0] for t in terms])
+            rhs = z3.Sum([prod(list(c)) for c in itertools.product(*terms)])
+            L = lhs == rhs
+            ex.oblige("lemma:product-of-sums-is-the-sum-of-products", L)
+            ex.assume(L)
+        goals = [("same-type", S.type_of(r) == S.type_of(self.formula)), ("equivalent", S.val(r) == S.val(self.formula))]
+        info = ex.ghost.get("nodeinfo", {}).get(r.get_id())
+        if self.Kop == S.TIMES and info and info.get("op") == S.TIMES and info.get("k") is not None:
+            goals.append(("product-has-no-sum-among-its-factors", z3.And([S.op(S.arg(r, S.K(i))) != S.PLUS for i in range(info["k"])])))
+        if self.Kop in (S.PLUS, S.MINUS) and info and info.get("op") == S.PLUS and info.get("k") is not None:
+            # the sum stays flat (the given sums are flat: setup)
+            goals.append(("sum-kept-flat", z3.And([S.op(S.arg(r, S.K(i))) != S.PLUS for i in range(info["k"])])))
+        return goals
+
+    def witness(self, model, ex):
+        from pyvc.concretize import node_to_json
+        return {"formula": node_to_json(model, self.formula, 3)}
+
+
+_base_variants10b = variants
+
+
+def variants(world, tier="quick", only=None):
+    out = _base_variants10b(world, tier, None)
+    for real in (False, True):
+        for shape in ((0, 0), (2, 0), (0, 2), (2, 2), (3, 0), (2, 3), (0, 0, 0), (2, 0, 2)) + (((3, 2), (0, 3), (0, 2, 0)) if tier == "thorough" else ()):
+            out.append(TimesDistVariant(world, S.TIMES, shape, real))
+        for shape in ((0, 0), (2, 0), (0, 3), (2, 2), (0, 2, 0)):
+            out.append(TimesDistVariant(world, S.PLUS, shape, real))
+        for shape in ((0, 0), (2, 0), (0, 2), (3, 2)):
+            out.append(TimesDistVariant(world, S.MINUS, shape, real))
+    if only:
+        out = [v for v in out if any(o in v.name for o in only)]
+    return out
